@@ -506,5 +506,76 @@ theorem abs_construct (data : Data) (columns : Option (List String)) (kwargs : L
     | error e => rfl
     | ok dk => exact congrArg some (abs_finish _)
 
+/-! ### keys of nested concatenations, reading records over a key list -/
+
+theorem lookup_map_keys (keys : List String) (F : String → Cell) (k : String) :
+    Recs.lookup keys (keys.map F) k = if k ∈ keys then F k else .none := by
+  unfold Recs.lookup
+  induction keys with
+  | nil => rfl
+  | cons a as ih =>
+    simp only [List.map_cons, List.zip_cons_cons, List.find?_cons, List.mem_cons]
+    by_cases ha : a = k
+    · subst ha; simp
+    · have h1 : (a == k) = false := by simpa using ha
+      have h2 : ¬ k = a := fun h => ha h.symm
+      simp only [h1, h2, false_or]
+      exact ih
+
+theorem dedupKeys_of_nodup (l : List String) (h : l.Nodup) : dedupKeys l = l := by
+  induction l using rev_induction with
+  | nil => rfl
+  | snoc l k ih =>
+    have hn := List.nodup_append.1 h
+    have hk : k ∉ l := fun hm => hn.2.2 k hm k (by simp) rfl
+    rw [dedupKeys_append_singleton, if_neg hk, ih hn.1]
+
+theorem dedupKeys_dedup_left (xs ys : List String) : dedupKeys (dedupKeys xs ++ ys) = dedupKeys (xs ++ ys) := by
+  induction ys using rev_induction with
+  | nil => simp only [List.append_nil]; exact dedupKeys_of_nodup _ (nodup_dedupKeys xs)
+  | snoc ys k ih =>
+    rw [← List.append_assoc, ← List.append_assoc, dedupKeys_append_singleton, dedupKeys_append_singleton, ih]
+    have : k ∈ dedupKeys xs ++ ys ↔ k ∈ xs ++ ys := by simp [mem_dedupKeys]
+    by_cases hk : k ∈ xs ++ ys
+    · rw [if_pos hk, if_pos (this.2 hk)]
+    · rw [if_neg hk, if_neg (fun h => hk (this.1 h))]
+
+theorem dedupKeys_dedup_right (xs ys : List String) : dedupKeys (xs ++ dedupKeys ys) = dedupKeys (xs ++ ys) := by
+  induction ys using rev_induction with
+  | nil => rfl
+  | snoc ys k ih =>
+    rw [dedupKeys_append_singleton]
+    by_cases hk : k ∈ ys
+    · rw [if_pos hk, ih, ← List.append_assoc, dedupKeys_append_singleton, if_pos (by simp [hk])]
+    · rw [if_neg hk, ← List.append_assoc, ← List.append_assoc, dedupKeys_append_singleton,
+        dedupKeys_append_singleton, ih]
+      have : k ∈ xs ++ dedupKeys ys ↔ k ∈ xs ++ ys := by simp [mem_dedupKeys]
+      by_cases hk' : k ∈ xs ++ ys
+      · rw [if_pos hk', if_pos (this.2 hk')]
+      · rw [if_neg hk', if_neg (fun h => hk' (this.1 h))]
+
+theorem lookup_absent (cols : List String) (row : List Cell) (k : String) (hk : k ∉ cols) :
+    Recs.lookup cols row k = .none := by
+  unfold Recs.lookup
+  have : (cols.zip row).find? (·.1 == k) = Option.none := by
+    apply List.find?_eq_none.2
+    intro p hp hpk
+    have : p.1 = k := by simpa using hpk
+    exact hk (this ▸ (List.of_mem_zip hp).1)
+  rw [this]; rfl
+
+/-- reading a record of an inner concatenation over the outer keys = reading the original record -/
+theorem lookup_through (K K' cols : List String) (row : List Cell) (hsub : ∀ k ∈ cols, k ∈ K') :
+    K.map (fun k => Recs.lookup K' (K'.map fun k' => Recs.lookup cols row k') k)
+      = K.map fun k => Recs.lookup cols row k := by
+  apply List.map_congr_left
+  intro k _
+  rw [lookup_map_keys]
+  split
+  · rfl
+  · rename_i hk
+    exact (lookup_absent cols row k (fun h => hk (hsub k h))).symm
+
+
 end Table
 end Pyg
